@@ -629,6 +629,7 @@ func checkC15(c *ev.Ctx) {
 	})
 	c15Stale(c, base)
 	c15Related(c, base)
+	gxzManyArgs(c, base)
 	// round trips for all presets and both formats, with interop
 	type rt struct {
 		f string
